@@ -1,4 +1,4 @@
 SPECIFICATION Spec
 CONSTANTS NOps = 2  IsWrite = TRUE  RegisterFirst = TRUE  DestructOnDone = TRUE  ErrnoFix = FALSE  Feeds = 2  WithFault = TRUE
-INVARIANTS IoCompletesExactlyOnce BytesAreTrue ErrorIsOsError DoneOnlyIfStopFired NoStaleKernelReference NoTouchAfterFree LaterActivityAffectsOnlyLaterOps QueueCountsConsistent
+INVARIANTS ErrorIsOsError
 CHECK_DEADLOCK FALSE
